@@ -96,8 +96,34 @@ fn query(state: &ClusterState, strat: &Strategy, token: i64, dc: &str, nnodes: u
 }
 
 /// One record: topology + ring + strategy + precomputed flag -> all queries.
+/// Makes up to `k` ring positions owned twice: by their owner and by a node of ANOTHER datacenter (both with a datacenter).
+/// Returns the ring sorted by (position, node) and whether anything was added.
+fn with_duplicate_tokens(attr: &[(String, String)], ring: &[(usize, usize)], k: usize, rng: &mut impl Rng) -> (Vec<(usize, usize)>, bool) {
+    let mut out = ring.to_vec();
+    let mut added = false;
+    let mut taken: Vec<usize> = Vec::new();
+    for _ in 0..k {
+        let (p, n) = ring[rng.random_range(0..ring.len())];
+        let dc = &attr[n - 1].0;
+        if dc.is_empty() || taken.contains(&p) {
+            continue;
+        }
+        let others: Vec<usize> = (1..=attr.len()).filter(|m| !attr[m - 1].0.is_empty() && &attr[m - 1].0 != dc).collect();
+        if others.is_empty() {
+            continue;
+        }
+        let m = others[rng.random_range(0..others.len())];
+        out.push((p, m));
+        taken.push(p);
+        added = true;
+    }
+    out.sort();
+    (out, added)
+}
+
 fn record(rt: &tokio::runtime::Runtime, attr: &[(String, String)], ring: &[(usize, usize)], strat_v: &Value, mode: u8, dcs: &[&str], rng: &mut impl Rng) -> Value {
-    let nring = ring.len();
+    // number of ring POSITIONS (a position may have two owners, in different datacenters)
+    let nring = ring.iter().map(|(p, _)| *p).max().unwrap_or(0);
     let strat = strategy_of(strat_v);
     let mk_ks = |st: &Strategy| vec![VKeyspace { name: "ks_pre".into(), strategy: st.clone(), tablet_based: false, tables: vec!["t".into()] }];
     // mode 0: nothing pre-computed; 1: this strategy pre-computed; 2: only a strategy with LARGER replication
@@ -207,6 +233,19 @@ pub fn cmd_run(args: &[String]) -> i32 {
             }
             owners.shuffle(&mut rng);
             let ring: Vec<(usize, usize)> = owners.iter().enumerate().map(|(i, n)| (i + 1, *n)).collect();
+            // the same ring with one or two token values owned by nodes of two datacenters (NTS only: SimpleStrategy's "first RF
+            // nodes" is not defined between two owners of one token)
+            let (dring, dup) = with_duplicate_tokens(&attr, &ring, 2, &mut rng);
+            if dup {
+                for s in strategies(attr.len(), full).into_iter().filter(|s| s["kind"] == "nts") {
+                    for mode in [1u8, 0] {
+                        let mut r2 = rand::rngs::StdRng::seed_from_u64(rng.random());
+                        let r = std::panic::catch_unwind(std::panic::AssertUnwindSafe(|| record(&rt, &attr, &dring, &s, mode, &dcs, &mut r2)));
+                        emit(r, &mut out, &mut nq, &mut panics);
+                        nrec += 1;
+                    }
+                }
+            }
             for s in strategies(attr.len(), full) {
                 for mode in [1u8, 0, 2, 3] {
                     // the two extra modes only where they can matter (keeps the judge's work bounded)
@@ -244,6 +283,7 @@ pub fn cmd_run(args: &[String]) -> i32 {
             _ => json!({"kind":"nts","rfs":[["dc1", rng.random_range(0..6)],["dc2", rng.random_range(0..6)],["dc3", rng.random_range(0..4)]]}),
         };
         let mode: u8 = rng.random_range(0..4);
+        let ring = if strat["kind"] == "nts" && rng.random_bool(0.4) { with_duplicate_tokens(&attr, &ring, 3, &mut rng).0 } else { ring };
         let mut r2 = rand::rngs::StdRng::seed_from_u64(rng.random());
         let r = std::panic::catch_unwind(std::panic::AssertUnwindSafe(|| {
             let mut v = record(&rt, &attr, &ring, &strat, mode, &dcs, &mut r2);
